@@ -368,7 +368,9 @@ type c46Params struct {
 	stageIgnoredDrop bool
 }
 
-func (p c46Params) documented() bool { return !p.textVerdict && !p.trackedFilter && !p.cleanNamedNoRule }
+func (p c46Params) documented() bool {
+	return !p.textVerdict && !p.trackedFilter && !p.cleanNamedNoRule
+}
 
 func (p c46Params) findings() []string {
 	var f []string
@@ -385,7 +387,7 @@ func (p c46Params) findings() []string {
 }
 
 type c46Action struct {
-	kind   string   // add_all, add_table, commit_A, commit_a, clean
+	kind   string // add_all, add_table, commit_A, commit_a, clean
 	sql    string
 	tables []string // add_table / clean
 	x, dry bool
